@@ -15,11 +15,16 @@
 
 use std::{
     collections::BTreeMap,
-    sync::{Arc, LazyLock, Mutex},
+    sync::{Arc, LazyLock},
     time::{Duration, Instant},
 };
 
+#[cfg(not(feature = "verif-hooks"))]
+use arc_swap::ArcSwap;
+use scion_sdk_utils::verif::Mutex;
 use snap_tokens::AnyClaims;
+#[cfg(feature = "verif-hooks")]
+use verif_shim::ArcSwap;
 use snap_tun::server::SnapTunAuthorization;
 
 use crate::api::crpc::model::SnapTunIdentityRegistry;
@@ -105,7 +110,7 @@ pub struct IdentityRegistry {
     // production.
     //
     // Alternatively, the size of this map should be kept small.
-    state: arc_swap::ArcSwap<IdentityRegistryState>,
+    state: ArcSwap<IdentityRegistryState>,
     write_lock: Mutex<()>,
 }
 
@@ -203,6 +208,46 @@ impl SnapTunAuthorization for IdentityRegistry {
 
     fn is_authorized(&self, now: Instant, identity: &Identity) -> Option<Arc<Self::SessionData>> {
         self.state.load().is_authorized(now, identity)
+    }
+}
+
+/// Simulation seam (cargo feature `verif-hooks`): [`arc_swap::ArcSwap`] with scheduling points
+/// around loads and stores, so that a simulator (see [`scion_sdk_utils::verif`]) can interleave
+/// concurrent registry operations at them. Without an installed simulator it just forwards.
+#[cfg(feature = "verif-hooks")]
+mod verif_shim {
+    use std::sync::Arc;
+
+    use scion_sdk_utils::verif;
+
+    pub struct ArcSwap<T>(arc_swap::ArcSwap<T>);
+
+    impl<T: Default> Default for ArcSwap<T> {
+        fn default() -> Self {
+            ArcSwap(arc_swap::ArcSwap::default())
+        }
+    }
+
+    impl<T> ArcSwap<T> {
+        /// See [`arc_swap::ArcSwapAny::load`].
+        pub fn load(&self) -> arc_swap::Guard<Arc<T>> {
+            verif::sched_point("registry.load");
+            self.0.load()
+        }
+
+        /// See [`arc_swap::ArcSwapAny::load_full`].
+        #[allow(dead_code)]
+        pub fn load_full(&self) -> Arc<T> {
+            verif::sched_point("registry.load");
+            self.0.load_full()
+        }
+
+        /// See [`arc_swap::ArcSwapAny::store`].
+        pub fn store(&self, value: Arc<T>) {
+            verif::sched_point("registry.store");
+            self.0.store(value);
+            verif::sched_point("registry.stored");
+        }
     }
 }
 
